@@ -60,7 +60,10 @@ m = {"version": 1, "setup_cmd": "./setup.sh",
                "baseline_off_cmd": "cd /repo && /venv/bin/python -m pytest -ra -q -p no:cacheprovider --timeout=900 --continue-on-collection-errors",
                "source_commits": [], "add_only": True},
      "engines": [{"name": "coq-models", "path": "coq/theories", "serves_properties": sorted(P), "kind_free_text": "Coq 8.16.1 development: executable Gallina models, proofs, property theorem files PCxx.v"},
-                 {"name": "harness", "path": "harness", "serves_properties": sorted(P), "kind_free_text": "Python: generators, implementation runners, case writers evaluated by coqc/vm_compute, property oracles, evidence"}],
+                 {"name": "harness", "path": "harness", "serves_properties": sorted(P), "kind_free_text": "Python: generators, implementation runners, case writers evaluated by coqc/vm_compute, property oracles, evidence"},
+             {"name": "regenerated-tie", "path": "harness/genarith.py", "serves_properties": sorted(P),
+              "kind_free_text": "fail-closed Python-ast -> Gallina translator (expressions, boolean masks, whole-function skeletons; target tables in "
+                                "harness/gen_targets_*.py) + lemma files coq/gen/GenProofs_*.v re-checked against the regenerated text on every run"}],
      "checks": [], "not_applicable": [],
      "notes": "Every check: make (full .vo build, no-op when up to date) -> coqc PCxx.v (theorems re-checked, Print Assumptions captured) -> correspondence of the Coq model with /repo's working tree -> property oracles on the implementation. See DESIGN.md."}
 DONE = open(f"{V}/tools/done.txt").read().split()
